@@ -517,11 +517,14 @@ pub fn make(workers: usize) -> C15 {
 pub fn run(ctx: &Ctx) -> i32 {
     let started = Instant::now();
     if let Some(p) = &ctx.replay {
+        if crate::fuzzdrive::is_artifact(p) {
+            return crate::fuzzdrive::replay_file("C15", "http_request", p);
+        }
         crate::panics::VERBOSE.store(true, std::sync::atomic::Ordering::SeqCst);
         return runner::replay(&make(1), p);
     }
     let camp = make(ctx.workers);
-    let stats = runner::run_campaign(&camp, ctx, if ctx.thorough() { 6000 } else { 500 });
+    let stats = runner::run_campaign(&camp, ctx, if ctx.thorough() { 8000 } else { 1500 });
     let mut ev = Evidence::default();
     ev.level = "exploration".into();
     ev.rule = "sequences of 1-11 HTTP requests over raw TCP to the real warp router in front of the real tower (fresh tower per sequence, prepared with fresh / watched / responded / expired / out-of-slots users; in 15% of the sequences bitcoind is flagged unreachable): valid bodies of the four endpoints mutated structurally (drop / null / retype / empty / odd-length / non-hex / longer / shorter / huge / non-ASCII / extra / wrapped / duplicate key / padded to limit-2..limit+2 / trailing garbage / negative / float / 2^32), raw bytes, odd JSON texts, nesting up to 3000, every method, known and unknown paths; oracle: status in {200, 4xx, 503}, documented JSON error object for well-addressed requests, 200 bodies parse as the documented reply, database identical after every non-200, a reply always arrives. counters.requests = HTTP requests sent. Non-trivial = at least one request got past HTTP-level validation into the tower; distinct = distinct sets of (status, error_code) seen.".into();
@@ -529,5 +532,12 @@ pub fn run(ctx: &Ctx) -> i32 {
         "every request is syntactically valid HTTP/1.1 with a Content-Length header".into(),
         "the gRPC hop is tonic over loopback, as in production".into(),
     ];
-    runner::conclude(ctx, "C15", stats, ev, started)
+    let mut stats = stats;
+    let inconclusive = crate::fuzzdrive::attach(ctx, "C15", "http_request", &mut stats, &mut ev, 8, 4000, 2100);
+    let code = runner::conclude(ctx, "C15", stats, ev, started);
+    if code == 0 && inconclusive {
+        2
+    } else {
+        code
+    }
 }
